@@ -52,6 +52,7 @@ import (
 	"bytes"
 	"fmt"
 	"math"
+	"math/big"
 	"math/rand/v2"
 	"reflect"
 	"sort"
@@ -901,6 +902,131 @@ const (
 	maxRFC3339Sec = 253402300799 - 2*86400 // 9999-12-29
 )
 
+// ---------------------------------------------------------------- boundaries derived from the 64-bit arithmetic
+//
+// The unix-time and decimal-duration codecs multiply and add 64-bit quantities: a count of whole units
+// W = sec*pow10 + nsec/(1e9/pow10) (writer, and `whole*pow10 + frac` in the parsers), for pow10 in {1,1e3,1e6,1e9},
+// which must be compared with the limits q in {2^63-1, 2^63, 2^64-1, 2^64} (MaxInt64, |MinInt64|, MaxUint64, the
+// uint64 wrap point), and the writer switches regime at sec = 1e9.  The samples below are derived from THAT
+// arithmetic, not from any particular instance of it:
+//
+//   - every (sec, nsec) whose unit count W lies within ±2 of a limit q (sub-unit remainder 0, 1 ns, and one ns below
+//     the next unit), i.e. the exact sub-second value at which sec*pow10 + frac crosses q, ±1, ±2 units;
+//   - sec = floor(q/pow10) + {-2..+2} and ceil(q/pow10) + {-2..+2}, each with nsec in {0, 1, 999999999, the remainder
+//     (q mod pow10) scaled to ns, ± one unit, ± 1 ns};
+//   - sec = 1e9 + {-2..+2} (regime switch) with the same nsec variants;
+//   - each magnitude as a positive time and as the negative time whose negateSecNano image it is.
+//
+// Durations: d = ±(q - {0..2}), ±(floor(q/u)*u + {-1,0,1}), ±(floor(q/u)*u + u - 1) for the int64 limits q and every unit
+// u the codecs multiply by (1e3, 1e6, 1e9 for the decimal formats; 1e9, 60e9, 3600e9 for ISO 8601).
+
+var arithTimes [][2]int64
+var arithDurs []int64
+
+func arithLimits() []*big.Int {
+	one := big.NewInt(1)
+	l63 := new(big.Int).Lsh(one, 63)
+	l64 := new(big.Int).Lsh(one, 64)
+	return []*big.Int{new(big.Int).Sub(l63, one), l63, new(big.Int).Sub(l64, one), l64}
+}
+
+// ArithBoundaryTimes returns the (Unix seconds, nanoseconds) pairs described above (deterministic, a few thousand).
+func ArithBoundaryTimes() [][2]int64 {
+	if arithTimes != nil {
+		return arithTimes
+	}
+	seen := map[[2]int64]bool{}
+	minI, maxI := big.NewInt(math.MinInt64), big.NewInt(math.MaxInt64)
+	addMag := func(S *big.Int, N int64) { // magnitude (S seconds, N ns) as a positive and as a negative time
+		if N < 0 || N >= 1e9 || S.Sign() < 0 {
+			return
+		}
+		put := func(sec *big.Int, nsec int64) {
+			if sec.Cmp(minI) < 0 || sec.Cmp(maxI) > 0 {
+				return
+			}
+			k := [2]int64{sec.Int64(), nsec}
+			if !seen[k] {
+				seen[k] = true
+				arithTimes = append(arithTimes, k)
+			}
+		}
+		put(S, N)
+		neg := new(big.Int).Neg(S)
+		if N > 0 { // negateSecNano(sec, nsec) = (-sec-1, 1e9-nsec)
+			put(neg.Sub(neg, big.NewInt(1)), 1e9-N)
+		} else {
+			put(neg, 0)
+		}
+	}
+	limits := arithLimits()
+	for _, p := range []int64{1, 1e3, 1e6, 1e9} {
+		P, unit := big.NewInt(p), int64(1e9)/p // unit = ns per counted unit
+		nsecVariants := func(rem int64) []int64 { // rem = remainder in units
+			base := rem * unit
+			return []int64{0, 1, 999999999, base, base + 1, base - 1, base + unit, base - unit, base + unit - 1, base + unit + 1, base - unit - 1, 500000000}
+		}
+		var secCenters []*big.Int
+		var rems []int64
+		for _, q := range limits {
+			// (a) unit counts W = q + {-2..2}
+			for d := int64(-2); d <= 2; d++ {
+				W := new(big.Int).Add(q, big.NewInt(d))
+				S, R := new(big.Int).DivMod(W, P, new(big.Int))
+				for _, sub := range []int64{0, 1, unit - 1} {
+					addMag(S, R.Int64()*unit+sub)
+				}
+			}
+			// (b) floor and ceil of q/pow10
+			fl, rem := new(big.Int).DivMod(q, P, new(big.Int))
+			secCenters = append(secCenters, fl, new(big.Int).Add(fl, big.NewInt(1)))
+			rems = append(rems, rem.Int64(), rem.Int64())
+		}
+		secCenters = append(secCenters, big.NewInt(1e9)) // the writer's own regime switch
+		rems = append(rems, 0)
+		for i, ce := range secCenters {
+			for d := int64(-2); d <= 2; d++ {
+				S := new(big.Int).Add(ce, big.NewInt(d))
+				for _, N := range nsecVariants(rems[i]) {
+					addMag(S, N)
+				}
+			}
+		}
+	}
+	return arithTimes
+}
+
+// ArithBoundaryDurations returns the int64 durations described above.
+func ArithBoundaryDurations() []int64 {
+	if arithDurs != nil {
+		return arithDurs
+	}
+	seen := map[int64]bool{}
+	minI, maxI := big.NewInt(math.MinInt64), big.NewInt(math.MaxInt64)
+	put := func(x *big.Int) {
+		for _, y := range []*big.Int{x, new(big.Int).Neg(x)} {
+			if y.Cmp(minI) >= 0 && y.Cmp(maxI) <= 0 && !seen[y.Int64()] {
+				seen[y.Int64()] = true
+				arithDurs = append(arithDurs, y.Int64())
+			}
+		}
+	}
+	for _, q := range arithLimits()[:2] {
+		for d := int64(0); d <= 2; d++ {
+			put(new(big.Int).Sub(q, big.NewInt(d)))
+		}
+		for _, u := range []int64{1e3, 1e6, 1e9, 60e9, 3600e9} {
+			U := big.NewInt(u)
+			fl := new(big.Int).Div(q, U)
+			base := new(big.Int).Mul(fl, U)
+			for _, d := range []int64{-1, 0, 1, u - 1, u, -u, -u - 1, -u + 1} {
+				put(new(big.Int).Add(base, big.NewInt(d)))
+			}
+		}
+	}
+	return arithDurs
+}
+
 // GenTime draws a time.Time fit for the given `format:` value ("" = default RFC 3339).
 //   - unix* formats: (sec, nsec) boundary-dense over all of int64 x [0,1e9), any zone (the zone is not kept);
 //   - every layout: instant with year in [1,9999] (local year too), zone UTC or a whole-minute fixed offset within ±23:59;
@@ -922,6 +1048,11 @@ func GenTime(r *rand.Rand, format string) time.Time {
 	}
 	switch format {
 	case "unix", "unixmilli", "unixmicro", "unixnano":
+		if r.IntN(4) == 0 { // boundaries derived from the 64-bit arithmetic of the unix codecs
+			bt := ArithBoundaryTimes()
+			p := bt[r.IntN(len(bt))]
+			return time.Unix(p[0], p[1]).In(genZones[r.IntN(len(genZones))])
+		}
 		return time.Unix(BoundaryInt64(r), nsec).In(genZones[r.IntN(len(genZones))])
 	}
 	var sec int64
